@@ -237,6 +237,16 @@ impl<VM: VMBinding> Space<VM> for MallocSpace<VM> {
             .verify_metadata_context(std::any::type_name::<Self>(), &self.metadata)
     }
 
+    #[cfg(feature = "verif")]
+    fn verif_side_metadata_specs(
+        &self,
+    ) -> (
+        Vec<crate::util::metadata::side_metadata::SideMetadataSpec>,
+        Vec<crate::util::metadata::side_metadata::SideMetadataSpec>,
+    ) {
+        (self.metadata.global.clone(), self.metadata.local.clone())
+    }
+
     fn enumerate_objects(&self, _enumerator: &mut dyn ObjectEnumerator) {
         unimplemented!()
     }
